@@ -61,7 +61,7 @@ type Graph struct {
 }
 
 type BOp struct {
-	Op     string   `json:"op"` // items | handlers | designate
+	Op     string   `json:"op"` // items | handlers | designate | inert
 	Items  [][2]int `json:"items,omitempty"`
 	Lambda bool     `json:"lambda,omitempty"` // build through WithLambdaOption even when a typed constructor exists
 	Hs     []int    `json:"hs,omitempty"`
@@ -111,6 +111,10 @@ type CallObs struct {
 	Differ []string `json:"differ,omitempty"`
 	// ... or did not have the same handlers fire every time
 	DifferCb []string `json:"differcb,omitempty"`
+	// single calls: one entry per EXECUTION of a node (a node of a looping graph, a ToolsNode with
+	// several tool calls has several); this is what the model is asked about
+	DelivAll []PL `json:"deliv_all,omitempty"`
+	FiredAll []PL `json:"fired_all,omitempty"`
 	// resume cases: the node paths that executed / the graph nodes that were entered in this call
 	Ran []string `json:"ran,omitempty"`
 	// resume cases: the checkpoint the call was entered with (nil: none)
@@ -357,6 +361,10 @@ func buildOpts(c Call, shared []compose.Option, sharedScript []BOp) ([]compose.O
 			env = append(env, mkOption(b.Items, b.Lambda))
 		case "handlers":
 			env = append(env, compose.WithCallbacks(mkHandlers(b.Hs)...))
+		case "inert":
+			// an Option that carries neither option values nor handlers (here: a state modifier
+			// that does nothing); designated, its paths are still validated
+			env = append(env, compose.WithStateModifier(func(ctx context.Context, path compose.NodePath, state any) error { return nil }))
 		case "designate":
 			if b.Parent < 0 || b.Parent >= len(env) {
 				return nil, nil, fmt.Errorf("harness: bad parent")
@@ -508,7 +516,7 @@ func runCase(c *Case) (obs []CallObs, fatal string) {
 		}()
 		select {
 		case <-done:
-		case <-time.After(20 * time.Second):
+		case <-time.After(45 * time.Second):
 			obs[i] = CallObs{Class: "hang"}
 			return
 		}
@@ -598,12 +606,34 @@ func collect(c *Case, rec *recorder) CallObs {
 	o := CallObs{Class: "ok", Deliv: []PL{}, Fired: []PL{}}
 	expected := map[string]bool{"/": true}
 	o.Fired = append(o.Fired, PL{Path: []int{}, Vals: sortedCopy(rec.fired["/"])})
+	o.FiredAll = append(o.FiredAll, PL{Path: []int{}, Vals: sortedCopy(rec.fired["/"])})
 	var extra []string
 	walk(c.Forest, 0, nil, 0, func(p []int, nd Node) {
 		name := pathName(p)
 		expected[name] = true
 		// how often the node executes in one call (looping graphs around it)
 		want := timesOf(c.Forest, p)
+		// one entry per execution: the executions of one node in one call follow each other, and
+		// each fires its handlers in one block
+		if nd.Kind != "pass" {
+			all := rec.fired[name]
+			if want > 0 && len(all)%want == 0 {
+				n := len(all) / want
+				for k := 0; k < want; k++ {
+					o.FiredAll = append(o.FiredAll, PL{Path: p, Vals: sortedCopy(all[k*n : (k+1)*n])})
+				}
+			} else {
+				o.FiredAll = append(o.FiredAll, PL{Path: p, Vals: sortedCopy(all)})
+			}
+		}
+		switch nd.Kind {
+		case "comp", "relay":
+			for _, d := range rec.delivs[name] {
+				o.DelivAll = append(o.DelivAll, PL{Path: p, Vals: append([]int{}, d...)})
+			}
+		case "pass":
+			o.DelivAll = append(o.DelivAll, PL{Path: p, Vals: []int{}})
+		}
 		perExec := func() []int {
 			hs, ok := perExecution(rec.fired[name], want)
 			if !ok {
@@ -699,6 +729,8 @@ func coqCall(c Call) string {
 			ops[i] = lib.CoqApp("BItems", lib.CoqList(its))
 		case "handlers":
 			ops[i] = lib.CoqApp("BHandlers", coqInts(b.Hs))
+		case "inert":
+			ops[i] = "(BItems [])"
 		default:
 			ps := make([]string, len(b.Paths))
 			for j, p := range b.Paths {
@@ -719,7 +751,13 @@ func coqObs(o CallObs) string {
 	case "err":
 		return "OErr"
 	case "ok", "int":
-		if o.Extra != "" || len(o.Differ) > 0 || len(o.DifferCb) > 0 {
+		if o.Extra != "" {
+			return "(OModelBad 1%N)"
+		}
+		if o.FiredAll != nil {
+			return lib.CoqApp("OOk", coqPLs(o.DelivAll), coqPLs(o.FiredAll))
+		}
+		if len(o.Differ) > 0 || len(o.DifferCb) > 0 {
 			return "(OModelBad 1%N)"
 		}
 		return lib.CoqApp("OOk", coqPLs(o.Deliv), coqPLs(o.Fired))
